@@ -60,8 +60,8 @@ SEMANTIC_RULES = {
     "C03": {"R1", "R4", "R5", "R6", "R7"},
     "C04": {"R1", "R2", "R3", "R4"},
     "C05": {"R1", "R2", "R3", "R6", "R8"},
-    "C06": {"R1", "R2", "R3", "R4", "R5", "R8"},
-    "C07": {"R1v", "R2", "R4"},
+    "C06": {"R1", "R2", "R3", "R4", "R5", "R6v", "R8"},
+    "C07": {"R1v", "R2", "R4", "R5v"},
     "C08": {"G1", "G2", "G5", "G6r", "G8"},
     "C09": {"R4", "R5"},
     "C10": {"ENTRY", "PRIM", "CLONE", "BACKEND", "FTYPE", "OWN", "IMM"},
